@@ -121,7 +121,8 @@ def run(ctx):
     ]
     ctx.notes += source_notes()
     if ok_h and ok_o:
-        tiers = ["quick", "thorough"] if thorough else ["quick"]
+        # the thorough generator produces a superset of the quick one (same matrix, same random stream, longer)
+        tiers = ["thorough"] if thorough else ["quick"]
         mon_fail_lines, corr_fail_lines = [], []
         total = None
         for t in tiers:
@@ -131,19 +132,13 @@ def run(ctx):
             summ, mons, corrs, cases = r
             mon_fail_lines += mons
             corr_fail_lines += corrs
-            if total is None:
-                total = dict(summ)
-                with open(cases) as f:
-                    lines = f.read(4_000_000).splitlines()
-                picks = [l for l in lines if " R ok " in l and " V 0 " not in l and " F 1 0 " not in l][:2]
-                picks += [l for l in lines if " R e_multi " in l][:1] + [l for l in lines if " R e_net " in l][:1]
-                picks += [l for l in lines if l.startswith("CFG C ") and " V 0 " not in l][:1]
-                cov["samples"] = [l[:700] for l in picks]
-            else:
-                for k, v in summ.items():
-                    if isinstance(v, int) and k not in ("conforms", "conforms_cli", "verify_shape", "auth_table_ok",
-                                                        "networks_documented", "defaults_documented"):
-                        total[k] = total.get(k, 0) + v
+            total = dict(summ)  # a widened run subsumes the quick one
+            with open(cases) as f:
+                lines = f.read(4_000_000).splitlines()
+            picks = [l for l in lines if " R ok " in l and " V 0 " not in l and " F 1 0 " not in l][:2]
+            picks += [l for l in lines if " R e_multi " in l][:1] + [l for l in lines if " R e_net " in l][:1]
+            picks += [l for l in lines if l.startswith("CFG C ") and " V 0 " not in l][:1]
+            cov["samples"] = [l[:700] for l in picks]
             # a broken tie in the quick tier widens the search to the thorough generator
             if (corrs or ctx.broken) and not mon_fail_lines and t == "quick" and not thorough:
                 ctx.log("a proof / translator / correspondence obligation is broken and the quick cases found no failing "
